@@ -33,6 +33,7 @@ type Obligation struct {
 	Descr string // human readable: the clause text or check description
 	Pos   string // file:line, informational only
 	Cover bool   // a reachability cover: expected to be REFUTED (sat)
+	Frame bool   // a frame obligation: the guarded frame invariants of loops are in force only for these
 }
 
 type Block struct {
@@ -288,6 +289,13 @@ func (ps *passive) queries(axioms func(terms []*Term) []string) []*Query {
 			for _, t := range terms {
 				t.Syms(syms)
 			}
+			if !c.ob.Frame {
+				for k := range syms {
+					if strings.HasPrefix(k, "$frameq") {
+						fmt.Fprintf(&sb, "(assert (not %s))\n", smtName(k))
+					}
+				}
+			}
 			var decl strings.Builder
 			for _, k := range sortedKeys(syms) {
 				fmt.Fprintf(&decl, "(declare-fun %s () %s)\n", smtName(k), syms[k].SMT())
@@ -313,7 +321,7 @@ func (ps *passive) queries(axioms func(terms []*Term) []string) []*Query {
 						}
 						goal = "(=> (and " + strings.Join(prev, " ") + ") " + goal + ")"
 					}
-					ob := &Obligation{Name: fmt.Sprintf("%s/c%d", c.ob.Name, i+1), Tags: c.ob.Tags, Func: c.ob.Func, Kind: c.ob.Kind, Pos: c.ob.Pos,
+					ob := &Obligation{Name: fmt.Sprintf("%s/c%d", c.ob.Name, i+1), Tags: c.ob.Tags, Func: c.ob.Func, Kind: c.ob.Kind, Pos: c.ob.Pos, Frame: c.ob.Frame,
 						Descr: c.ob.Descr + " -- conjunct " + fmt.Sprint(i+1) + ": " + abbrev(cj.String())}
 					pt := strings.Replace(tmpl, "GOAL$$", goal, 1)
 					q.Parts = append(q.Parts, &Query{Ob: ob, Text: pt, Size: len(pt)})
